@@ -19,7 +19,7 @@ META = {
         'area < tol bound the box diameter?) and the parameter bookkeeping of one subdivision step.  Path.intersect runs on stub '
         'segments whose intersect() returns symbolic pairs: every output triple has T = t2T(seg, t) and the de-duplication removes '
         'only entries within tol of a kept one.  Arc x Line closed form: the real branch runs with recording point_to_t methods; every common point of the full ellipse and the infinite line is among the candidate points, the branch is entered only for rotation 0 (point_to_t\'s documented domain), pairs are assembled per candidate.  Arc x Bezier: parameter pairing index by index with the t1 range filter.  Arc.point_to_t (vf/props/c11arc.py): run on a point of the ellipse given by its eccentric angle, acos/asin of its cos/sin as piecewise-linear folds in degrees, all angle loops and np.isclose tests executed: a returned t is in [0,1] and is the point (to 1e-2 degrees), None only off the arc.  The first iteration of bezier_intersections runs on symbolic boxes: no pair with a degenerate box is accepted.'),
-    'outside': ['termination/depth of the subdivision', 'phase2t itself and Arc x Arc; Line.point_to_t with the near-end tests as free flags; Arc.point_to_t only for rotation 0, concrete radii (2x1, circle; thorough 1x3), points of the ellipse, '
+    'outside': ['termination/depth of the subdivision', 'Arc x Arc other than two unrotated circles on different centres (candidate points, tangent cases and assembly are covered: vf/props/c11arcarc.py); Line.point_to_t with the near-end tests as free flags; Arc.point_to_t only for rotation 0, concrete radii (2x1, circle; thorough 1x3), points of the ellipse, '
                 'with the near-start / near-end tests as free flags',
                 'the 1e-5 / 1e-3 numeric margins (exact coincidence under exact roots is what is shown)'],
     'assumptions': ['np.roots returns roots of the polynomial it is given (contract)'],
@@ -760,6 +760,10 @@ def families(tier):
     for n in (1, 2, 3):
         fams.append(('arc-bezier-pairing-%d' % n, M, 'fam_arc_bezier_pairing', {'nroots': n}))
     fams.append(('line-point_to_t', 'vf.props.c11arc', 'fam_line_point_to_t', {}))
+    # two unrotated circular arcs (the closed-form Arc x Arc case): candidates and assembly for different answers of point_to_t
+    for nm, tv in (('all-in', (0.5, 0.5, 0.5, 0.5)), ('first-off-self', (-0.25, 0.5, 0.5, 0.5)), ('second-off-other', (0.5, 0.5, 0.5, 1.5)),
+                   ('none-and-in', (None, 0.5, 0.25, 0.75)), ('ends', (0.0, 1.0, 1.0, 0.0))):
+        fams.append(('arc-arc-circles-%s' % nm, 'vf.props.c11arcarc', 'fam_arc_arc_circles', {'tvals': tv}))
     for sg in (1, -1):
         fams.append(('arc-phase2t-%s' % ('ccw' if sg > 0 else 'cw'), 'vf.props.c11arc', 'fam_phase2t', {'sign': sg}))
     for nm, rad in (('2x1', (2.0, 1.0)), ('circle', (2.0, 2.0))) + ((('1x3', (1.0, 3.0)),) if tier == 'thorough' else ()):
